@@ -422,14 +422,8 @@ def _not_isinstance_str_else(test) -> Set[str]:
 # (c) raise hierarchy, (e) handlers
 REVIEWED_HANDLERS = {
     # (function fq, normalised handler head) -> reason
-    ('peptacular.chem.chem_calc:_parse_mod_delta_mass', 'except ValueError: pass'):
-        'float() probe: a non-numeric alternative is tried as a prefixed spelling next',
     ('peptacular.chem.chem_calc:_parse_mod_delta_mass_only', 'except DeltaMassCompositionError: continue'):
         'a prefixed signed number has no composition: the alternative is handled as a mass shift below',
-    ('peptacular.util:convert_type', 'except ValueError: try'): 'int() probe then float() probe, value returned as is',
-    ('peptacular.util:convert_type', 'except ValueError: return val'): 'float() probe failed: the text is kept',
-    ('peptacular.chem.chem_util:_parse_split_chem_formula.<locals>.is_number', 'except ValueError: return False'):
-        'float() probe of a token of a separated formula: a predicate, its False is acted upon by the caller',
 }
 
 
@@ -477,6 +471,9 @@ def handler_discipline(ctx, rep, funcs: List[FuncInfo], clause, label: str):
                 why = ''
                 if raises and all(self_ok(program, f, r) for r in raises) and _all_paths_raise(h.body):
                     ok, why = True, 're-raises a ValueError subclass on every path'
+                elif _probe_only(node, f):
+                    ok, why = True, 'the guarded block only calls built-in conversions: no error of the resolver can ' \
+                                    'arrive here'
                 elif (f.fq, head) in REVIEWED_HANDLERS:
                     ok, why = True, 'reviewed: ' + REVIEWED_HANDLERS[(f.fq, head)]
                 elif h.type is not None and _only_warns(h.body):
@@ -486,6 +483,31 @@ def handler_discipline(ctx, rep, funcs: List[FuncInfo], clause, label: str):
                    f'error of the resolver would be swallowed (the modification silently counts as nothing)',
                    f.loc(h), clause)
     return n
+
+
+_BUILTIN_CASTS = {'int', 'float', 'str', 'len', 'abs', 'round', 'bool'}
+_STR_METHODS = {'strip', 'lstrip', 'rstrip', 'replace', 'lower', 'upper', 'split', 'startswith', 'endswith'}
+
+
+def _probe_only(try_node: ast.Try, f) -> bool:
+    """the try block calls nothing but built-in conversions (directly, or through a loop variable that ranges over a
+    literal tuple of them) and string methods: whatever it raises was raised by the conversion itself"""
+    casters = set(_BUILTIN_CASTS)
+    for x in walk_own(f.node):
+        if isinstance(x, ast.For) and isinstance(x.target, ast.Name) and isinstance(x.iter, (ast.Tuple, ast.List)) and \
+                x.iter.elts and all(isinstance(e, ast.Name) and e.id in _BUILTIN_CASTS for e in x.iter.elts) and \
+                any(n is try_node for n in ast.walk(x)):
+            casters.add(x.target.id)
+    calls = [c for st in try_node.body for c in ast.walk(st) if isinstance(c, ast.Call)]
+    if not calls:
+        return False
+    for c in calls:
+        if isinstance(c.func, ast.Name) and c.func.id in casters:
+            continue
+        if isinstance(c.func, ast.Attribute) and c.func.attr in _STR_METHODS:
+            continue
+        return False
+    return True
 
 
 def self_ok(program, f, r) -> bool:
@@ -524,6 +546,18 @@ def terminal_raise(ctx, rep, clause):
         last = f.node.body[-1]
         ok = isinstance(last, ast.Raise) and last.exc is not None and \
             is_value_error_class(program, f.module, last.exc)[0] is True
+        if not ok and isinstance(last, ast.Return) and isinstance(last.value, ast.Name):
+            # `if x is None: raise ...` right before `return x`: the unresolved case raises, only a value is returned
+            x = last.value.id
+            for k_ in range(len(f.node.body) - 2, -1, -1):
+                st = f.node.body[k_]
+                if isinstance(st, ast.If) and not st.orelse and norm_stmt(st.test) in (f'{x} is None', f'None is {x}') \
+                        and st.body and isinstance(st.body[-1], ast.Raise) and st.body[-1].exc is not None and \
+                        is_value_error_class(program, f.module, st.body[-1].exc)[0] is True:
+                    ok = True
+                    break
+                if any(isinstance(y, ast.Name) and y.id == x and isinstance(y.ctx, ast.Store) for y in ast.walk(st)):
+                    break
         ob(rep, 'EXC-terminal', fq, 'falls through to a raise of a ValueError subclass', ok,
            f'`{norm_stmt(last)[:70]}`',
            f'the resolver ends in `{norm_stmt(last)[:70]}`: an unresolvable modification would be returned as a value '
